@@ -28,7 +28,7 @@ package route
 //@ iface (r Route) Dispatch(buf []byte)
 //@   property C01,C04
 //@   logged
-//@   modifies allof("chan#sent"), allof("ghost:metrics.Counter.count")
+//@   modifies allof("chan:[]uint8#sent"), allof("ghost:metrics.Counter.count")
 //@   ensures[table_counters] forall c ref :: gh("metrics.Counter.tableOwned", c) ==> gh("metrics.Counter.count", c) == old(gh("metrics.Counter.count", c))
 
 // ---------------------------------------------------------------- route.go
@@ -48,17 +48,17 @@ package route
 //@   requires baseWf(route.baseRoute) && destsWf(confDests(baseConf(route.baseRoute)))
 //@   let d  := confDests(baseConf(route.baseRoute))
 //@   let nm := nameOf(buf[..])
-//@   modifies allof("chan#sent"), allof("ghost:sync.Mutex.held")
+//@   modifies allof("chan:[]uint8#sent"), allof("ghost:sync.Mutex.held")
 //@   ensures[all_matching] forall j int :: 0 <= j && j < len(d) ==>
 //@        sent(d[j].In) == (destAccepts(d[j], nm) ? old(sent(d[j].In)) ++ elemOf(buf) : old(sent(d[j].In)))
-//@   ensures[no_other] forall ch ref :: (forall j int :: 0 <= j && j < len(d) ==> d[j].In != ch) ==> sent(ch) == old(sent(ch))
+//@   ensures[no_other] forall ch ref :: (forall j int :: 0 <= j && j < len(d) ==> d[j].In != ch) ==> sentAt("[]uint8", ch) == old(sentAt("[]uint8", ch))
 //@   ensures[unlocked] forall j int :: 0 <= j && j < len(d) ==> !d[j].lockMatcher.held
 //@   loop 1:
 //@     invariant[idx]   0 <= #i && #i <= len(#s) && #s == d && buf == old(buf) && buf[..] == old(buf[..])
 //@     invariant[done]  forall j int :: 0 <= j && j < #i ==>
 //@        sent(d[j].In) == (destAccepts(d[j], nm) ? old(sent(d[j].In)) ++ elemOf(buf) : old(sent(d[j].In)))
 //@     invariant[todo]  forall j int :: #i <= j && j < len(d) ==> sent(d[j].In) == old(sent(d[j].In))
-//@     invariant[other] forall ch ref :: (forall j int :: 0 <= j && j < len(d) ==> d[j].In != ch) ==> sent(ch) == old(sent(ch))
+//@     invariant[other] forall ch ref :: (forall j int :: 0 <= j && j < len(d) ==> d[j].In != ch) ==> sentAt("[]uint8", ch) == old(sentAt("[]uint8", ch))
 //@     invariant[wf]    destsWf(d)
 //@
 //@ func (route *SendFirstMatch) Dispatch(buf []byte)
@@ -66,12 +66,12 @@ package route
 //@   requires baseWf(route.baseRoute) && destsWf(confDests(baseConf(route.baseRoute)))
 //@   let d  := confDests(baseConf(route.baseRoute))
 //@   let nm := nameOf(buf[..])
-//@   modifies allof("chan#sent"), allof("ghost:sync.Mutex.held")
+//@   modifies allof("chan:[]uint8#sent"), allof("ghost:sync.Mutex.held")
 //@   ensures[first_only] forall j int :: 0 <= j && j < len(d) ==>
 //@        sent(d[j].In) == ((destAccepts(d[j], nm) && (forall k int :: 0 <= k && k < j ==> !destAccepts(d[k], nm))) ? old(sent(d[j].In)) ++ elemOf(buf) : old(sent(d[j].In)))
-//@   ensures[no_other] forall ch ref :: (forall j int :: 0 <= j && j < len(d) ==> d[j].In != ch) ==> sent(ch) == old(sent(ch))
+//@   ensures[no_other] forall ch ref :: (forall j int :: 0 <= j && j < len(d) ==> d[j].In != ch) ==> sentAt("[]uint8", ch) == old(sentAt("[]uint8", ch))
 //@   loop 1:
 //@     invariant[idx]    0 <= #i && #i <= len(#s) && #s == d && buf == old(buf) && buf[..] == old(buf[..])
 //@     invariant[none]   forall k int :: 0 <= k && k < #i ==> !destAccepts(d[k], nm)
-//@     invariant[quiet]  forall ch ref :: sent(ch) == old(sent(ch))
+//@     invariant[quiet]  forall ch ref :: sentAt("[]uint8", ch) == old(sentAt("[]uint8", ch))
 //@     invariant[wf]     destsWf(d)
